@@ -59,7 +59,7 @@ func NewH265Depacketizer(meta *codec.VideoMeta, w codec.FrameWriter) Depacketize
  */
 func (h265dp *h265Depacketizer) Depacketize(packet *Packet) (err error) {
 	payload := packet.Payload()
-	if len(payload) < 3 {
+	if len(payload) < 2 { // 仅有 2 字节头的 NAL（EOS、EOB 等）是合法的，不能丢弃
 		return
 	}
 
@@ -114,6 +114,9 @@ func (h265dp *h265Depacketizer) depacketizeStap(packet *Packet) (err error) {
 
 func (h265dp *h265Depacketizer) depacketizeFu(packet *Packet) (err error) {
 	payload := packet.Payload()
+	if len(payload) < 3 { // payload header + FU header
+		return
+	}
 	rawDataOffset := 3 // 原始数据的偏移 = FU indicator + header
 
 	//  0 1 2 3 4 5 6 7
